@@ -118,6 +118,21 @@ def eval_moved(fam, s):
             lib.call(b1.move, lib.V(MOVES[0]))
             viols += cmp_measures('C06', 'moved', cell + '|twin-built-from-the-same-face-objects', sc, b2, e, what(b2))
     viols += cmp_measures('C06', 'moved', cell + '|before', sc, r, e, what(r))
+    if kind == 'polygon':
+        # objects derived from r (its negation, a deep copy, the object returned by a move of a copy) are moved: r keeps its measures
+        derived = lib.call(lambda: -r)
+        if isinstance(derived, lib.Raised):
+            viols.append(Viol('C06|moved|negate|%s|raises:%s' % (kind, derived.cls), sc(), 'negated polygon', repr(derived), ''))
+        else:
+            lib.call(derived.move, lib.V(MOVES[0]))
+            lib.call(derived.move, lib.V((7, -5, 3)))
+            viols += cmp_measures('C06', 'moved', cell + '|original-after-its-negation-was-moved', sc, r, e, what(r))
+            viols += cmp_measures('C06', 'moved', cell + '|moved-negation', sc, derived, e, what(derived))
+        import copy as _copy
+        dc = lib.call(_copy.deepcopy, r)
+        if not isinstance(dc, lib.Raised):
+            lib.call(dc.move, lib.V((7, -5, 3)))
+            viols += cmp_measures('C06', 'moved', cell + '|original-after-its-deep-copy-was-moved', sc, r, e, what(r))
     for i, v in enumerate(MOVES):
         ret = lib.call(r.move, lib.V(v))
         if isinstance(ret, lib.Raised):
